@@ -1,32 +1,42 @@
 import Percival.Driver.Loop
-import Percival.Spec.Aes
-import Percival.Spec.Ctr
+import Percival.Spec.AesFailMon
 /-! `pmodel aesfailmon`: monitor for C03's "allocation failure during the AES dispatch self-test" op: the first key
-    expansion may fail (documented NULL), but if it succeeds both keys must encrypt as FIPS-197 says. -/
+    expansion may fail (documented NULL), but if it succeeds both keys must encrypt as FIPS-197 says.
+    Parse/print only: the expected ciphertexts and the acceptance rule are `Spec.AesFailMon.expect` / `accepts`
+    (`C03.aesfail_expect_is_spec`). -/
 namespace Percival.Driver.Aesfailmon
-open Percival.Driver Percival.Spec
+open Percival.Driver Percival.Spec Percival.Spec.AesFailMon
 
-def expect (k1 blk k2 : String) : Option (String × String × String) := do
-  let a ← bytesOfHex k1; let b ← bytesOfHex blk; let c ← bytesOfHex k2
-  -- the harness streams 48 bytes `blk[j % 16] + j` under nonce 7 with the first key
-  let sin := (List.range 48).map fun j => (b.getD (j % 16) 0) + UInt8.ofNat j
-  pure (hexOfBytes (Aes.encryptBlock a b), hexOfBytes (Aes.encryptBlock c b),
-        hexOfBytes (Ctr.stream (Aes.encryptBlock a) 7 sin))
+/-- outer `none`: not an `aesfail` op line; inner `none`: unreadable hex or a block of fewer than 16 bytes -/
+def parseOp : List String → Option (Option Expect)
+  | "aesfail" :: _ :: k1 :: blk :: k2 :: _ => some do
+      let a ← bytesOfHex k1; let b ← bytesOfHex blk; let c ← bytesOfHex k2
+      expect a b c
+  | _ => none
+
+/-- bytes written as the harness writes them (lowercase hex, `-` for none); anything else is unreadable -/
+def canonHex (t : String) : Option (List UInt8) := (bytesOfHex t).filter fun b => hexOfBytes b = t
+
+def parseAns : List String → Option Ans
+  | ["fail"] => some .fail
+  | ["ct", c1, c2, c3] => some (.ct (canonHex c1) (canonHex c2) (canonHex c3))
+  | _ => none
+
+def showExpect (e : Expect) : String := s!"{hexOfBytes e.c1} {hexOfBytes e.c2} {hexOfBytes e.c3}"
 
 def mon (_ : Unit) (op ans : List String) : Unit × String :=
-  match op, ans with
-  | "aesfail" :: _, ["fail"] => ((), "ok")
-  | "aesfail" :: _ :: k1 :: blk :: k2 :: _, ["ct", c1, c2, c3] =>
-      match expect k1 blk k2 with
-      | some (e1, e2, e3) => ((), if c1 = e1 ∧ c2 = e2 ∧ c3 = e3 then "ok" else s!"bad block/stream output differs from FIPS-197 / SP 800-38A (dispatch self-test failure or unusual block alignment): want {e1} {e2} {e3}")
-      | none => ((), "bad op")
+  match op, parseAns ans with
+  | "aesfail" :: _, some .fail => ((), "ok")
+  | _, some (.ct c1 c2 c3) =>
+      match parseOp op with
+      | some (some e) => ((), if accepts e (.ct c1 c2 c3) then "ok" else s!"bad block/stream output differs from FIPS-197 / SP 800-38A (dispatch self-test failure or unusual block alignment): want {showExpect e}")
+      | some none => ((), "bad op")
+      | none => ((), "bad unexpected answer")
   | _, _ => ((), "bad unexpected answer")
 
 def model (_ : Unit) (toks : List String) : Unit × String :=
-  match toks with
-  | "aesfail" :: _ :: k1 :: blk :: k2 :: _ => match expect k1 blk k2 with
-      | some (e1, e2, e3) => ((), s!"ct {e1} {e2} {e3}")
-      | none => ((), "bad-op")
+  match parseOp toks with
+  | some (some e) => ((), s!"ct {showExpect e}")
   | _ => ((), "bad-op")
 
 def main (args : List String) : IO UInt32 :=
